@@ -1,0 +1,47 @@
+//! Verification hooks for the external model-checking harness (feature `verif`).
+//!
+//! Everything in this module is additive: re-exports and thin wrappers of crate-private items,
+//! a runtime seam (scheduling points + event log) that is a no-op unless a runtime is registered,
+//! and a `sync` shim whose types behave exactly like the `std::sync` types they wrap when no
+//! runtime is registered.  It must never be enabled in production.
+
+#![allow(missing_docs)]
+
+pub use crate::util::freelist::{FreeList, FAILURE as FREELIST_FAILURE, MAX_HEADS, MAX_UNITS};
+pub use crate::util::int_array_freelist::IntArrayFreeList;
+pub use crate::util::raw_memory_freelist::RawMemoryFreeList;
+pub use crate::util::treadmill::TreadMill;
+
+/// Run `revisitable_group_by` over `items` with key function `key` and return, for each group,
+/// `(key, reported len, items yielded)`.
+///
+/// `delay` selects when the items of a group are pulled out of it: `0` = immediately when the
+/// group is produced; `1` = only after the *next* group has been produced (revisiting);
+/// `2` = only after all groups have been produced.
+pub fn revisitable_group_by_trace<T: Clone, K: PartialEq + Copy>(
+    items: &[T],
+    key: &dyn Fn(&T) -> K,
+    delay: usize,
+) -> Vec<(K, usize, Vec<T>)> {
+    use crate::util::rust_util::rev_group::RevisitableGroupByForIterator;
+    let mut result = vec![];
+    let mut pending = std::collections::VecDeque::new();
+    for group in items.iter().cloned().revisitable_group_by(|x| key(x)) {
+        pending.push_back(group);
+        let keep = match delay {
+            0 => 0,
+            1 => 1,
+            _ => usize::MAX,
+        };
+        while pending.len() > keep {
+            let g = pending.pop_front().unwrap();
+            let (k, len) = (g.key, g.len);
+            result.push((k, len, g.collect::<Vec<T>>()));
+        }
+    }
+    while let Some(g) = pending.pop_front() {
+        let (k, len) = (g.key, g.len);
+        result.push((k, len, g.collect::<Vec<T>>()));
+    }
+    result
+}
